@@ -17,6 +17,10 @@ import Proofs.SemaphoreNest
 import Martian.SemaphoreSys
 import Proofs.SemaphoreCaller
 import Proofs.SemaphoreSysLive
+import Proofs.SemaphoreQueue
+import Proofs.SemaphoreRefresh
+import Proofs.SemaphoreStanding
+import Proofs.SemaphoreMJP
 import Gen.Facts
 
 namespace Props.C12
@@ -349,7 +353,7 @@ theorem maxjobs_le_limit (L : Int) (hL : 0 ≤ L) (ops : List MJOp) :
 
 /-- A job that is still queued/waiting is admitted as soon as there is room. -/
 theorem maxjobs_admits_when_room (s : MJ) (id : Nat) (st : MdState) (nb : Bool)
-    (hst : st.cancelled = false) (hroom : (s.running.length : Int) < s.limit) :
+    (hst : st.cancelled nb = false) (hroom : (s.running.length : Int) < s.limit) :
     (s.attempt id st nb).2 = some true ∧ id ∈ (s.attempt id st nb).1.running := by
   unfold MJ.attempt
   have hn : ¬ (s.limit ≤ (s.running.length : Int)) := by omega
@@ -361,15 +365,66 @@ theorem maxjobs_admits_when_room (s : MJ) (id : Nat) (st : MdState) (nb : Bool)
 
 /-- **Re-attaching after an mrp restart restores the count**: a fresh
 semaphore (`resetMaxJobs`) on which `reattach` (= one non-blocking `Acquire`)
-is called once for every job that is in flight on the cluster — distinct jobs,
-at most `limit` of them, which is what the previous incarnation guaranteed —
-holds exactly those jobs afterwards, so new submissions wait for them. -/
-theorem reattach_restores_count (L : Int) (ids : List Nat) (hnd : ids.Nodup)
-    (hlen : (ids.length : Int) ≤ L) :
-    ((MJ.init L).run (reattachOps ids)).running = ids := by
-  have := MJ.run_reattach L ids (MJ.init L) rfl (by simpa [MJ.init] using hnd)
-    (by simpa [MJ.init] using hlen)
+is called once for every job that is in flight on the cluster — in whichever of
+the two in-flight states, Queued or RUNNING, the restarted mrp reads from disk;
+distinct jobs, at most `limit` of them, which is what the previous incarnation
+guaranteed — holds exactly those jobs afterwards, so new submissions wait for
+them and `maxjobs_le_limit` continues to bound the jobs submitted at the same
+time across the restart.  (True of the code since the repair of audit finding
+C12-H7; the behaviour before it is `reattach_dropped_running_jobs_before_fix`.) -/
+theorem reattach_restores_count (L : Int) (ids : List (Nat × MdState))
+    (hst : ∀ p ∈ ids, p.2 = .queued ∨ p.2 = .running)
+    (hnd : (ids.map (·.1)).Nodup) (hlen : (ids.length : Int) ≤ L) :
+    ((MJ.init L).run (reattachOps ids)).running = ids.map (·.1) := by
+  have := MJ.run_reattach L ids (MJ.init L) rfl
+    (fun p hp => by rcases hst p hp with h | h <;> simp [h, MdState.inFlight])
+    (by simpa [MJ.init] using hnd) (by simpa [MJ.init] using hlen)
   simpa [MJ.init] using this.1
+
+/-- **The defect the repair removed** (negative witness for the OLD `Acquire`,
+reproduced on the unrepaired code by the cluster-restart stream: key
+`C12:cluster:over-maxjobs`).  `Acquire` refused every state other than
+Queued/Waiting also when re-attaching, so two jobs Running on the cluster (the
+normal in-flight state: the job has written `_log`) were not put back, the fresh
+semaphore stayed empty, and two MORE jobs were admitted: four jobs outstanding
+with `--maxjobs 2`. -/
+theorem reattach_dropped_running_jobs_before_fix :
+    ((MJ.init 2).runOld [(3, .running, true), (1, .running, true)]).running = [] ∧
+    ((MJ.init 2).runOld [(3, .running, true), (1, .running, true),
+        (7, .waiting, false), (8, .waiting, false)]).running = [7, 8] ∧
+    ((MJ.init 2).run [.attempt 3 .running true, .attempt 1 .running true,
+        .attempt 7 .waiting false, .attempt 8 .waiting false]).running = [3, 1] := by
+  decide
+
+/-! ### MaxJobsSemaphore with its callers: wake-ups (model Martian/SemaphoreMJP.lean)
+
+The callers blocked in `cond.Wait()` and the signalled ones are part of the
+state; `Signal` after `Release`, `Broadcast`/`Signal` in `FindDone`, `Broadcast`
+in `Clear`, and the deferred `Signal` on every return from inside `Acquire`. -/
+
+/-- **No parked caller is forgotten.**  After every sequence of Acquire calls
+(new or resumed after a wake-up, any metadata states), Release, FindDone and
+Clear: if a slot is free and some caller is parked in `cond.Wait()`, then some
+caller has been signalled and will look at the semaphore again. -/
+theorem maxjobs_no_parked_caller_is_forgotten (L : Int) (ops : List MJPOp) :
+    ((MJP.init L).run ops).NoLostWakeup :=
+  MJP.run_noLost _ ops (by intro _; left; rfl)
+
+/-- … so at quiescence (every signalled caller has run) nobody is parked while a
+slot is free — what the harness monitors on the real semaphore (`lost-wakeup`). -/
+theorem maxjobs_quiescent_room_nobody_parked (L : Int) (ops : List MJPOp)
+    (hq : ((MJP.init L).run ops).woken = []) (hroom : ((MJP.init L).run ops).room) :
+    ((MJP.init L).run ops).parked = [] := by
+  rcases maxjobs_no_parked_caller_is_forgotten L ops hroom with h | h
+  · exact h
+  · exact absurd hq h
+
+/-- the bound of `maxjobs_le_limit` for the model with callers (its `running`
+component evolves by `MJ.attempt` / `MJ.step`) -/
+theorem maxjobs_with_callers_le_limit (L : Int) (hL : 0 ≤ L) (ops : List MJPOp) :
+    (((MJP.init L).run ops).running.length : Int) ≤ L ∧ ((MJP.init L).run ops).running.Nodup := by
+  have := MJP.run_inv L hL ops (MJP.init L) (MJ.init_inv L hL)
+  exact ⟨this.le, this.nodup⟩
 
 /-! ## GetSystemReqs / Enqueue (after float → integer conversion) -/
 
@@ -474,11 +529,16 @@ theorem normalize_idempotent (c : LocalCfg) (hc : Sane c) (m1 v1 m2 v2 : Int) (r
         split at hz <;> omega
       · exact reqV_fix c v2 _ _ _ hz (fun h => absurd h hv) (fun _ => hb)
 
-/-- **Clamped requests fit every semaphore**, so by `local_every_schedule_finishes`
-every such job runs: with a vmem limit not below the memory limit and a process
-semaphore of at least `procsPerJob + maxCores`, the four amounts `Enqueue`
-acquires for ANY request (zero, adaptive, oversized) are non-negative and within
-the sizes `setupSemaphores` gives the semaphores. -/
+/-- **Clamped requests fit every semaphore — the configuration with all four
+semaphores** (vmem limit configured and not below the memory limit, process
+semaphore present); the general statement, including the default configuration
+without a vmem semaphore, is `normalized_amounts_fit_every_configuration`.
+`procs` is what the process semaphore has LEFT for jobs,
+`rlimMax - startingThreadCount` (mrp's own standing reservation is never
+released: `standing_reservation_is_a_smaller_semaphore`), not its `maxSize`:
+with `procsPerJob + maxCores` within that, the four amounts `Enqueue` acquires
+for ANY request (zero, adaptive, oversized) are non-negative and within the
+sizes, so by `local_every_schedule_finishes` every such job runs. -/
 theorem normalized_amounts_fit (c : LocalCfg) (hc : Sane c) (hv : 0 < c.maxVmemMB)
     (hvm : c.maxMemGB * 1024 ≤ c.maxVmemMB) (procs : Int) (hp : procsPerJob + c.maxCores ≤ procs)
     (mc vc : Int) (r : Req) :
@@ -503,29 +563,151 @@ theorem normalized_amounts_fit (c : LocalCfg) (hc : Sane c) (hv : 0 < c.maxVmemM
   · intro s
     rcases s with _ | _ | _ | _ | s <;> simp <;> omega
 
+/-- **Every configuration** (supersedes the four-semaphore statement above:
+no vmem semaphore — the default without `--localvmem` under an unlimited
+`ulimit -v` — and/or no process semaphore included).  For a sane configuration,
+with the vmem limit (if there is one) at least the memory limit, and with
+`procsPerJob + maxCores` within what the process rlimit leaves for jobs (if
+there is a process semaphore; `procsLeft = rlimMax - startingThreadCount`, see
+`standing_reservation_is_a_smaller_semaphore`): the amounts `Enqueue` acquires
+for ANY request are non-negative and fit the sizes of the semaphores that
+exist — so by `local_every_schedule_finishes` every such job runs. -/
+theorem normalized_amounts_fit_every_configuration (c : LocalCfg) (hc : Sane c)
+    (hvm : 0 < c.maxVmemMB → c.maxMemGB * 1024 ≤ c.maxVmemMB)
+    (procsLeft : Option Int) (hp : ∀ p, procsLeft = some p → procsPerJob + c.maxCores ≤ p)
+    (mc vc : Int) (r : Req) :
+    let a := acquireAmounts (normalize c mc vc r)
+    fitsSizes (localAmounts c procsLeft.isSome a) (localSizes c procsLeft) ∧
+    (∀ s, 0 ≤ (localAmounts c procsLeft.isSome a).getD s 0) := by
+  have h := clamp_le_limits c hc mc vc r
+  simp only at h
+  obtain ⟨h1, h2, h3, h4, h5⟩ := h
+  have e1 : Int.tdiv ((normalize c mc vc r).centi + 99) 100 = ((normalize c mc vc r).centi + 99) / 100 :=
+    Int.tdiv_eq_ediv_of_nonneg (by omega)
+  by_cases hv : 0 < c.maxVmemMB
+  · have hv3 := vmem_never_rejected_partial c hc mc vc r hv (hvm hv)
+    obtain ⟨h6, _⟩ := h5 hv
+    have e2 : Int.tdiv (normalize c mc vc r).vmemMb 1024 = (normalize c mc vc r).vmemMb / 1024 :=
+      Int.tdiv_eq_ediv_of_nonneg (by omega)
+    simp only [acquireAmounts] at hv3 ⊢
+    rw [e1, e2] at *
+    unfold procsPerJob at *
+    cases procsLeft with
+    | none =>
+      simp only [localAmounts, localSizes, hv, if_true, Option.isSome_none, Bool.false_eq_true, if_false,
+        Option.toList_none, List.append_nil, List.cons_append, List.nil_append]
+      constructor
+      · intro i m hi
+        rcases i with _ | _ | _ | i <;> simp at hi <;> subst hi <;> simp <;> omega
+      · intro s
+        rcases s with _ | _ | _ | s <;> simp <;> omega
+    | some p =>
+      have hp' := hp p rfl
+      simp only [localAmounts, localSizes, hv, if_true, Option.isSome_some, Option.toList_some,
+        List.cons_append, List.nil_append]
+      constructor
+      · intro i m hi
+        rcases i with _ | _ | _ | _ | i <;> simp at hi <;> subst hi <;> simp <;> omega
+      · intro s
+        rcases s with _ | _ | _ | _ | s <;> simp <;> omega
+  · simp only [acquireAmounts]
+    rw [e1]
+    unfold procsPerJob at *
+    cases procsLeft with
+    | none =>
+      simp only [localAmounts, localSizes, hv, if_false, Option.isSome_none, Bool.false_eq_true,
+        Option.toList_none, List.append_nil]
+      constructor
+      · intro i m hi
+        rcases i with _ | _ | i <;> simp at hi <;> subst hi <;> simp <;> omega
+      · intro s
+        rcases s with _ | _ | s <;> simp <;> omega
+    | some p =>
+      have hp' := hp p rfl
+      simp only [localAmounts, localSizes, hv, if_false, Option.isSome_some, Option.toList_some,
+        List.append_nil, List.cons_append, List.nil_append, if_true]
+      constructor
+      · intro i m hi
+        rcases i with _ | _ | _ | i <;> simp at hi <;> subst hi <;> simp <;> omega
+      · intro s
+        rcases s with _ | _ | _ | s <;> simp <;> omega
+
+/-! ## The process semaphore's standing reservation
+
+`setupSemaphores`: `procsSem = NewResourceSemaphore(rlimMax)`, then
+`procsSem.Acquire(startingThreadCount)` for mrp itself — never released. -/
+
+/-- **A standing reservation makes a smaller semaphore.**  For every sequence
+of `Acquire`/`Release` calls (the client protocol of `Enqueue`) in which no
+request lies strictly between the smaller size `m` and the real maximum `m + d`,
+and no release is "bad": the semaphore of size `m + d` with `d` reserved for
+ever grants, queues and refuses exactly like the semaphore of size `m` — same
+events, same queue, reservations larger by `d`.  So the never-stall theorems
+(`local_every_schedule_finishes`, `normalized_amounts_fit_every_configuration`)
+apply to the process semaphore with the size `rlimMax - startingThreadCount`. -/
+theorem standing_reservation_is_a_smaller_semaphore (s : Sem) (d : Int) (hd : 0 ≤ d)
+    (ops : List SemOp) (hops : ∀ op ∈ ops, op.plain s.max d)
+    (hp : hasPanic (run s ops).2 = false) :
+    run (s.shift d) ops = ((run s ops).1.shift d, (run s ops).2) :=
+  run_shift d hd ops s hops hp
+
+/-- **… except for a request between the two sizes** (negative witness; audit
+second-pass MEDIUM-1).  `ulimit -u 60`, one core: the job needs 15 + 1 = 16
+processes; 16 ≤ maxSize = 60, so `Acquire` does not refuse it, but only
+60 - 45 = 15 can ever be free: it is queued with `curSize = maxSize` and nobody
+left to release anything — it waits for ever (the smaller semaphore of size 15
+would have refused it).  The Go code only prints "The current process count
+limit … is low".  Replayed on the real code by the refresh workers (uid nobody,
+RLIMIT_NPROC lowered): documented limit, not a configured martian limit. -/
+theorem standing_reservation_parks_request_between_sizes :
+    let g := (grun (G.init 60) [.acquire 0 startingThreadCount, .updSize 60, .acquire 1 16]).1
+    g.sem.waiters = [(1, 16)] ∧ g.sem.cur = 60 ∧ g.sem.max = 60 ∧ g.held = [(0, 45)] ∧
+    (step (Sem.init 15) (.acquire 1 16)).2 = [.reject 1 16] ∧
+    ¬ (SemOp.acquire 1 16).plain 15 45 := by
+  refine ⟨by decide, by decide, by decide, by decide, by decide, ?_⟩
+  simp [SemOp.plain]
+
 /-! ## Regenerated obligations (jobmanager_local.go as it is now) -/
 
 /-- Every local job takes the semaphores in one and the same order
 (cores → memory → vmem → processes), the order `acquireAmounts` lists them in;
 fails on a tree whose `Enqueue` acquires in another order. -/
 theorem acquire_order_ok :
+    Gen.localAcquireOrder_extracted = true ∧
     Gen.localAcquireOrder = ["centcoreSem", "memMBSem", "vmemMBSem", "procsSem"] := by decide
 
+/-- **One acquisition order on EVERY path** through the job goroutine of `Enqueue`
+(regenerated by an abstract interpretation that follows both arms of every `if`, early
+returns, and calls of local function values — all the literals a variable may hold):
+each path acquires along a subsequence of cores → memory → vmem → processes, and the
+full order occurs.  A second order on some path (e.g. memory before cores for "big"
+jobs) makes hold-and-wait deadlock possible and voids `local_no_deadlock`; the
+source-order fact `acquire_order_ok` alone would not see it. -/
+theorem acquire_order_same_on_every_path :
+    Gen.localAcquireOrders_extracted = true ∧
+    (Gen.localAcquireOrders.all fun o =>
+      o.isSublist ["centcoreSem", "memMBSem", "vmemMBSem", "procsSem"]) = true ∧
+    ["centcoreSem", "memMBSem", "vmemMBSem", "procsSem"] ∈ Gen.localAcquireOrders := by decide
+
 /-- the per-job process estimate constant used by the model is the one in the source -/
-theorem procs_per_job_ok : Gen.localProcsPerJob = procsPerJob := by decide
+theorem procs_per_job_ok :
+    Gen.localProcsPerJob_extracted = true ∧ Gen.localProcsPerJob = procsPerJob := by decide
 
 /-- `UpdateSize` has exactly one caller in martian: `setupSemaphores`, on the
 process semaphore, with `rlimCur` (≤ `rlimMax`, the size it was created with).
 The core, memory and vmem semaphores never see it. -/
 theorem updateSize_called_only_in_setup :
+    Gen.updateSizeCalls_extracted = true ∧
     Gen.updateSizeCalls = [("jobmanager_local.go", "setupSemaphores", "self.procsSem", "rlimCur(rlim)")] := by
   decide
 
 /-- the deferred releases of `Enqueue` are written in acquisition order, so they
 run in reverse acquisition order, as `Sys.act` releases -/
-theorem release_order_ok : Gen.localReleaseOrder = Gen.localAcquireOrder := by decide
+theorem release_order_ok :
+    Gen.localReleaseOrder_extracted = true ∧ Gen.localReleaseOrder = Gen.localAcquireOrder := by decide
 
-theorem starting_threads_ok : Gen.localStartingThreads = startingThreadCount := by decide
+theorem starting_threads_ok :
+    Gen.localStartingThreads_extracted = true ∧ Gen.localStartingThreads = startingThreadCount := by decide
 
 /-! ### The arithmetic the model mirrors, statement by statement
 
@@ -555,6 +737,13 @@ theorem skel_Acquire_ok :
      "return nil"] := by
   first | exact Or.inr rfl | exact Or.inl rfl
 
+/-- `Enqueue`: only the lines that mention a semaphore, an amount, `GetSystemReqs` or
+`executeLocal` are kept (filter `enqueueKeep`): the Acquire calls with their amount
+expressions and the Release calls, in source order.  The `if err != nil` / `return` lines of
+the refusal path and the `defer func` lines are NOT in this skeleton: that a refusal returns
+and gives back what is held, and that the releases are deferred, is pinned by
+`release_order_ok` (which looks inside the `defer` statements) and by the differential run of
+real jobs (refused jobs, reservations at every quiescent point). -/
 theorem skel_Enqueue_ok :
     Gen.c12Skel_Enqueue_extracted = false ∨ Gen.c12Skel_Enqueue =
     ["res := self.GetSystemReqs(resRequest)",
@@ -575,65 +764,21 @@ theorem skel_Enqueue_ok :
      "err := executeLocal(cmd, stdoutPath, stderrPath, localpreflight, metadata)"] := by
   first | exact Or.inr rfl | exact Or.inl rfl
 
-theorem skel_GetSystemReqs_ok :
-    Gen.c12Skel_GetSystemReqs_extracted = false ∨ Gen.c12Skel_GetSystemReqs =
-    ["result := *request",
-     "if result.Threads < 0",
-     "centiCores = int(math.Floor(result.Threads * 100))",
-     "else",
-     "centiCores = int(math.Ceil(result.Threads * 100))",
-     "if centiCores == 0",
-     "centiCores = self.jobSettings.ThreadsPerJob * 100",
-     "else",
-     "if centiCores < 0",
-     "centiCores = self.maxCores * 100",
-     "if centiCores > self.maxCores*100",
-     "result.Threads = float64(self.maxCores)",
-     "else",
-     "result.Threads = float64(centiCores) / 100",
-     "if result.MemGB < 0",
-     "memMb = int64(math.Floor(result.MemGB * 1024))",
-     "else",
-     "memMb = int64(math.Ceil(result.MemGB * 1024))",
-     "if memMb == 0",
-     "memMb = int64(self.jobSettings.MemGBPerJob) * 1024",
-     "else",
-     "if memMb < 0",
-     "avail := self.memMBSem.CurrentSize()",
-     "if avail < 1 || avail < -memMb",
-     "memMb = -memMb",
-     "else",
-     "memMb = avail",
-     "if result.VMemGB < 0",
-     "vmemMb = int64(math.Floor(result.VMemGB * 1024))",
-     "else",
-     "vmemMb = int64(math.Ceil(result.VMemGB * 1024))",
-     "if vmemMb == 0",
-     "vmemMb = memMb + int64(self.jobSettings.ExtraVmemGB)*1024",
-     "if vmemMb < 0",
-     "if self.vmemMBSem != nil",
-     "avail := self.vmemMBSem.CurrentSize()",
-     "if avail < 1 || avail < -vmemMb",
-     "vmemMb = -vmemMb",
-     "else",
-     "vmemMb = avail",
-     "if memMb > int64(self.maxMemGB)*1024",
-     "memMb = int64(self.maxMemGB) * 1024",
-     "if self.maxVmemMB > 0 && vmemMb > self.maxVmemMB",
-     "vmemMb = self.maxVmemMB",
-     "if vmemMb > 0 && vmemMb < memMb",
-     "vmemMb = memMb",
-     "result.MemGB = float64(memMb) / 1024",
-     "result.VMemGB = float64(vmemMb) / 1024",
-     "return result"] := by
-  first | exact Or.inr rfl | exact Or.inl rfl
+/- `skel_GetSystemReqs_ok` (the textual skeleton of `GetSystemReqs`) has been RETIRED: the
+integer logic of `GetSystemReqs` is now translated from the Go source on every run and tied by
+theorems (`Props/C12Tie.lean`: `tr_GSR_centi_eq_model`, `tr_GSR_mem_eq_model`,
+`tr_GSR_vmem_eq_model`, `tr_GSR_normalize`), which tolerate harmless rewrites the textual
+skeleton alarmed on; the differential GetSystemReqs vs `normalize` stays. -/
+
 
 theorem skel_MaxJobsAcquire_ok :
     Gen.c12Skel_MaxJobsAcquire_extracted = false ∨ Gen.c12Skel_MaxJobsAcquire =
     ["if metadata == nil",
      "return false",
+     "canceled := func",
      "st, ok := metadata.getState()",
-     "if ok && st != Queued && st != Waiting",
+     "return ok && st != Queued && st != Waiting && !(nonblocking && st == Running)",
+     "if canceled()",
      "return false",
      "defer self.cond.Signal()",
      "self.lock.Lock()",
@@ -641,8 +786,7 @@ theorem skel_MaxJobsAcquire_ok :
      "for len(self.running) >= self.Limit",
      "if self.Limit <= 0",
      "return false",
-     "st, ok := metadata.getState()",
-     "if ok && st != Queued && st != Waiting",
+     "if canceled()",
      "return false",
      "_, ok := self.running[metadata]",
      "if ok",
@@ -650,8 +794,7 @@ theorem skel_MaxJobsAcquire_ok :
      "if nonblocking",
      "return false",
      "self.cond.Wait()",
-     "st, ok := metadata.getState()",
-     "if ok && st != Queued && st != Waiting",
+     "if canceled()",
      "return false",
      "self.running[metadata] = struct{}{}",
      "return true"] := by
@@ -770,6 +913,27 @@ theorem skel_runJobs_ok :
      "self.waiters = self.waiters[len(self.waiters):]"] := by
   first | exact Or.inr rfl | exact Or.inl rfl
 
+/-- `refreshResources`: which sampled quantity goes into which availability
+update (the sampled values themselves are environment input, not modelled):
+memory `UpdateFreeUsed(free, rss of mrp's CHILDREN — mrp itself excluded)`,
+vmem `UpdateActual(max - vmem of the children)`, cores `UpdateActual(idle cores)`,
+processes `UpdateFreeUsed(rlimit - user's processes, children + startingThreadCount)`. -/
+theorem skel_refreshResources_ok :
+    Gen.c12Skel_refreshResources_extracted = true ∧ Gen.c12Skel_refreshResources =
+    ["err := sysMem.Get()",
+     "usedMem, err := GetProcessTreeMemory(os.Getpid(), false, nil)",
+     "memDiff := self.memMBSem.UpdateFreeUsed( (sysMem.ActualFree+1024*1024-1)/(1024*1024), (usedMem.Rss+1024*1024-1)/(1024*1024))",
+     "if self.vmemMBSem != nil",
+     "self.vmemMBSem.UpdateActual( self.maxVmemMB - usedMem.Vmem/(1024*1024))",
+     "if self.limitLoad",
+     "err := load.Get()",
+     "diff := self.centcoreSem.UpdateActual( int64((float64(runtime.NumCPU()) - load.One + 0.9) * 100), )",
+     "if self.procsSem != nil",
+     "rlim, err := GetMaxProcs()",
+     "userProcs, err := GetUserProcessCount()",
+     "self.procsSem.UpdateFreeUsed( rlimCur(rlim)-int64(userProcs), int64(usedMem.Procs)+startingThreadCount)"] := by
+  exact ⟨rfl, rfl⟩
+
 theorem skel_setupSemaphores_ok :
     Gen.c12Skel_setupSemaphores_extracted = false ∨ Gen.c12Skel_setupSemaphores =
     ["self.centcoreSem = NewResourceSemaphore(int64(self.maxCores)*100, formatCentiThreads)",
@@ -787,7 +951,488 @@ theorem skel_setupSemaphores_ok :
      "if rlimMax(rlim) > rlimCur(rlim)"] := by
   first | exact Or.inr rfl | exact Or.inl rfl
 
+/-! ## Availability updates are applied exactly (no dead band) -/
+
+/-- **The observation is applied.**  After `UpdateSize` / `UpdateActual` /
+`UpdateFreeUsed` the current size is exactly the value computed from the
+arguments, however small the change. -/
+theorem observation_is_applied (s : Sem) (op : SemOp) (c : Int) (h : observedSize s op = some c) :
+    (step s op).1.cur = c := by
+  cases op with
+  | acquire id n => simp [observedSize] at h
+  | release n => simp [observedSize] at h
+  | updActual n =>
+    simp only [observedSize, Option.some.injEq] at h
+    simp only [step]; rw [← h]; exact (setCur_cur s _).1
+  | updSize n =>
+    simp only [observedSize, Option.some.injEq] at h
+    simp only [step]; rw [← h]; exact (setCur_cur s _).1
+  | updFreeUsed f u =>
+    simp only [observedSize, Option.some.injEq] at h
+    simp only [step]; rw [← h]; exact (setCur_cur s _).1
+
+/-- **No waiter is left behind by an availability update**: after an update
+that reports the size `c`, the queue is empty or its head does not fit
+`c - reserved` — for every amount of growth, down to 1 (the harness monitors
+exactly this on the real semaphore: `lost-wakeup` against the last reported
+availability). -/
+theorem no_waiter_fits_last_observation (s : Sem) (op : SemOp) (c : Int)
+    (h : observedSize s op = some c) (hs : NoLost s) :
+    match (step s op).1.waiters with
+    | [] => True
+    | w :: _ => c - (step s op).1.reserved < w.2 := by
+  have hp : hasPanic (step s op).2 = false := by
+    cases op with
+    | acquire id n => simp [observedSize] at h
+    | release n => simp [observedSize] at h
+    | updActual n => simp [step, hasPanic_append, setCur_hasPanic, hasPanic]
+    | updSize n => simp [step, setCur_hasPanic]
+    | updFreeUsed f u => simp [step, hasPanic_append, setCur_hasPanic, hasPanic]
+  have hn := step_noLost s op hs hp
+  have hc := observation_is_applied s op c h
+  unfold NoLost at hn
+  rw [hc] at hn
+  exact hn
+
+/-! ## The availability-update path: `refreshResources` (caller arithmetic + semaphore)
+
+Model: Martian/SemaphoreRefresh.lean — the arguments `refreshResources` computes
+from what the OS reports (`Obs`), fed to `step`.  "Never stalls" here: the
+update must not make the grantable size smaller than what the OS offers, so a
+job that fits the limits is not parked for ever. -/
+
+section Refresh
+open Martian.SemaphoreRefresh
+
+/-- **An idle (or honest) refresh restores the full size.**  If the usage of the
+process tree below mrp, in whole MB rounded up, is at most what is reserved (in
+particular nothing running: 0 ≤ 0) and free + that usage reaches the limit, the
+memory semaphore's current size after `refreshResources` is exactly the limit. -/
+theorem idle_refresh_restores_full_size (s : Sem) (o : Obs)
+    (hu : ceilMB o.rss ≤ s.reserved) (hf : s.max ≤ ceilMB o.actualFree + ceilMB o.rss) :
+    (step s (refreshMemOp o)).1.cur = s.max := by
+  simp only [refreshMemOp, memArgs, step_updFreeUsed_cur]
+  exact freeUsedCur_full s _ _ hu hf
+
+/-- the same in bytes for the idle case: nothing below mrp uses memory, the OS
+has at least the limit free -/
+theorem idle_refresh_full_size_bytes (s : Sem) (o : Obs) (hr : o.rss = 0) (h0 : 0 ≤ s.reserved)
+    (hf : s.max * MB ≤ o.actualFree) : (step s (refreshMemOp o)).1.cur = s.max := by
+  apply idle_refresh_restores_full_size
+  · rw [hr, ceilMB_zero]; exact h0
+  · rw [hr, ceilMB_zero]; have := ceilMB_ge o.actualFree s.max hf; omega
+
+/-- **A refresh never parks a job that fits.**  Under the same hypotheses, after
+the refresh the queue is empty or its head does not fit `maxSize - reserved`:
+whoever fits the limit has been granted by this very call. -/
+theorem refresh_never_parks_a_fitting_job (s : Sem) (o : Obs) (hs : NoLost s)
+    (hu : ceilMB o.rss ≤ s.reserved) (hf : s.max ≤ ceilMB o.actualFree + ceilMB o.rss) :
+    match (step s (refreshMemOp o)).1.waiters with
+    | [] => True
+    | w :: _ => s.max - (step s (refreshMemOp o)).1.reserved < w.2 := by
+  apply no_waiter_fits_last_observation s (refreshMemOp o) s.max _ hs
+  simp only [refreshMemOp, memArgs, observedSize, Option.some.injEq]
+  exact freeUsedCur_full s _ _ hu hf
+
+/-- … and with nobody waiting, the next request that fits `maxSize - reserved`
+(in particular, after an idle refresh, a lone job asking for the whole limit)
+is granted at once. -/
+theorem limit_job_granted_after_refresh (s : Sem) (o : Obs) (id : Nat) (n : Int)
+    (hw : s.waiters = []) (hu : ceilMB o.rss ≤ s.reserved)
+    (hf : s.max ≤ ceilMB o.actualFree + ceilMB o.rss) (hn : n ≤ s.max - s.reserved) :
+    (step (step s (refreshMemOp o)).1 (.acquire id n)).2 = [.grant id n] := by
+  have hc := freeUsedCur_full s _ _ hu hf
+  simp only [refreshMemOp, memArgs, step, setCur_noWaiters s _ hw, hc, hw]
+  simp [hn]
+
+/-- **More free memory never gives a smaller size** (same tree usage). -/
+theorem more_free_memory_never_smaller_size (s : Sem) (o1 o2 : Obs)
+    (h : o1.actualFree ≤ o2.actualFree) (hr : o1.rss = o2.rss) :
+    (step s (refreshMemOp o1)).1.cur ≤ (step s (refreshMemOp o2)).1.cur := by
+  simp only [refreshMemOp, memArgs, step_updFreeUsed_cur, hr]
+  exact freeUsedCur_mono s _ _ _ (ceilMB_mono _ _ h)
+
+/-- vmem: while the address space of the tree below mrp (whole MB) is within
+the reservations, the refresh restores the full vmem limit. -/
+theorem refresh_vmem_full_when_usage_within_reservations (s : Sem) (o : Obs)
+    (h : o.vmem / MB ≤ s.reserved) : (step s (refreshVmemOp s.max o)).1.cur = s.max := by
+  simp only [refreshVmemOp, vmemArg, step_updActual_cur]
+  split
+  · rfl
+  · omega
+
+/-- process count: usage within the reservations and enough head-room under the
+rlimit ⇒ full size -/
+theorem refresh_procs_full_size (s : Sem) (o : Obs)
+    (hu : o.procs + startingThreadCount ≤ s.reserved)
+    (hf : s.max ≤ o.rlimCur - o.userProcs + (o.procs + startingThreadCount)) :
+    (step s (refreshProcsOp o)).1.cur = s.max := by
+  simp only [refreshProcsOp, procsArgs, step_updFreeUsed_cur]
+  exact freeUsedCur_full s _ _ hu hf
+
+/-- **Why mrp's own usage must not be counted** (negative witness, replayed in
+spirit by the harness's worker processes).  1 GB limit, 8 GB free, nothing
+running.  With the tree usage as the code takes it (children only) the size
+stays 1024 and a job asking for the whole limit starts.  If mrp's own 30 MB were
+counted as "usage of the reservations" (30 > reserved = 0) the size becomes
+1024 - 30 = 994, the job is queued, and no number of identical refreshes ever
+grants it. -/
+theorem own_usage_as_reservation_parks_limit_job :
+    let o : Obs := ⟨8 * 1024 * MB, 0, 0, 0, 0, 4096, 100⟩
+    let o' := o.withOwn (30 * MB) (700 * MB) 12
+    let ok := step (step (Sem.init 1024) (refreshMemOp o)).1 (.acquire 1 1024)
+    let s1 := (step (Sem.init 1024) (refreshMemOp o')).1
+    let r2 := step s1 (.acquire 1 1024)
+    let s4 := (step (step r2.1 (refreshMemOp o')).1 (refreshMemOp o')).1
+    ok.2 = [.grant 1 1024] ∧ s1.cur = 994 ∧ r2.2 = [] ∧ s4.waiters = [(1, 1024)] ∧ s4.cur = 994 := by
+  decide
+
+/-- regenerated: `refreshResources` samples the tree BELOW mrp
+(`GetProcessTreeMemory(os.Getpid(), false, nil)`) -/
+theorem refresh_excludes_own_usage :
+    Gen.refreshTreeIncludesParent_extracted = true ∧ Gen.refreshTreeIncludesParent = false ∧
+    Gen.refreshTreeCall_extracted = true ∧ Gen.refreshTreeCall = ["os.Getpid()", "false", "nil"] := by
+  decide
+
+/-- regenerated: the argument expressions of the four `Update*` calls are the
+ones `memArgs` / `vmemArg` / `coresArg` / `procsArgs` model -/
+theorem refresh_update_args_ok :
+    Gen.refreshUpdateArgs_extracted = true ∧ Gen.refreshUpdateArgs =
+    [("memMBSem", "UpdateFreeUsed", ["(sysMem.ActualFree + 1024*1024 - 1) / (1024 * 1024)",
+        "(usedMem.Rss + 1024*1024 - 1) / (1024 * 1024)"]),
+     ("vmemMBSem", "UpdateActual", ["self.maxVmemMB - usedMem.Vmem/(1024*1024)"]),
+     ("centcoreSem", "UpdateActual", ["int64((float64(runtime.NumCPU()) - load.One + 0.9) * 100)"]),
+     ("procsSem", "UpdateFreeUsed", ["rlimCur(rlim) - int64(userProcs)",
+        "int64(usedMem.Procs) + startingThreadCount"])] := by
+  exact ⟨rfl, rfl⟩
+
+end Refresh
+
+/-! ## Cluster mode: reconciliation with the scheduler's queue (queue query)
+
+Model: Martian/SemaphoreQueue.lean (`Pipestance.queryQueue`,
+`RemoteJobManager.checkQueue`, `Metadata.failNotRunning`, `Metadata.endRefresh`
+as called by `Node.refreshState`).  `jobRun s evs j` is the job `j` of state `s`
+after the events `evs` (`run_follows_jobs`).  What "never stalls" means here: a
+job that silently vanished from the cluster (the scheduler no longer lists it,
+it never writes anything) does not keep the pipestance waiting for ever. -/
+
+section QueueQuery
+open Martian
+
+/-- **Safety, one event.**  The only thing that fails a job "not queued or
+running" is a `refreshState` at a time `t` later than mark + grace period, where
+the mark was made (see `mark_only_by_omitting_answer`) and BOTH mrp's cached
+state and the files the job has written so far (the journal is applied first)
+still say Queued/Running: a job that finished within the grace period, or
+whose completion reached the journal before the refresh, is not failed. -/
+theorem recon_fails_only_after_grace (s : SemaphoreQueue.Q) (ev : SemaphoreQueue.Ev) (j : SemaphoreQueue.Job)
+    (h : (SemaphoreQueue.stepJob s ev j).st = .notQueued) (h0 : j.st ≠ .notQueued)
+    (hd : j.disk ≠ .notQueued) :
+    ∃ t s0, ev = .refresh t ∧ j.since = some s0 ∧ s0 + s.grace < t ∧
+      j.st.alive = true ∧ j.disk.alive = true :=
+  SemaphoreQueue.stepJob_notQueued s ev j h h0 hd
+
+/-- A mark (`notRunningSince`) is only ever set by a successful answer that
+omits the job, and carries that answer's time. -/
+theorem mark_only_by_omitting_answer (s : SemaphoreQueue.Q) (ev : SemaphoreQueue.Ev)
+    (j : SemaphoreQueue.Job) (s0 : Nat) (h : (SemaphoreQueue.stepJob s ev j).since = some s0) :
+    j.since = some s0 ∨ ∃ out, ev = .answer s0 (some out) ∧ j.jobid ∉ out :=
+  SemaphoreQueue.stepJob_since s ev j s0 h
+
+/-- **Safety over a run.**  A job which every successful answer names (failed
+query commands count as "everything is still there") is never marked and never
+failed by the reconciliation, whatever else happens and however long it runs. -/
+theorem reported_job_never_failed (s : SemaphoreQueue.Q) (evs : List SemaphoreQueue.Ev)
+    (j : SemaphoreQueue.Job) (hr : SemaphoreQueue.Reported j.jobid evs) (hs : j.since = none)
+    (hd : j.disk ≠ .notQueued) (h0 : j.st ≠ .notQueued) :
+    (SemaphoreQueue.jobRun s evs j).since = none ∧ (SemaphoreQueue.jobRun s evs j).st ≠ .notQueued :=
+  SemaphoreQueue.jobRun_reported s evs j hr hs hd h0
+
+/-- The hypothesis "EVERY answer names it" cannot be weakened to "the scheduler
+reports it now": nothing clears a mark.  A job omitted by one answer (time 0) and
+named by every later one (times 300, 600) is still failed by the first refresh
+after the grace period (40) although the scheduler has been listing it all
+along.  (Replayed on the real code by the harness: documented limit — the code
+trusts a single omitting answer; the struct comment on `notRunningSince` says
+"not found last time the job manager was queried".) -/
+theorem reported_again_still_failed :
+    let j : SemaphoreQueue.Job := ⟨"7", true, .running, .running, none⟩
+    let s : SemaphoreQueue.Q := ⟨40, 300, none, none, [j]⟩
+    (SemaphoreQueue.jobRun s [.issue 0, .answer 0 (some [""]), .issue 300, .answer 300 (some ["7", ""]),
+        .refresh 301, .issue 600, .answer 600 (some ["7", ""]), .refresh 601] j).st = .notQueued := by
+  decide
+
+/-- a query command that fails marks nothing -/
+theorem failed_query_marks_nothing (s : SemaphoreQueue.Q) (t : Nat) (j : SemaphoreQueue.Job) :
+    SemaphoreQueue.stepJob s (.answer t none) j = j := by
+  simp only [SemaphoreQueue.stepJob]
+  cases s.active with
+  | none => rfl
+  | some ids => simp [Option.getD]
+
+/-- **The query is issued.**  With no query in flight and at least
+`QUEUE_CHECK_LIMIT` (regenerated: `Gen.queueCheckLimitSecs` = 300 s) since the
+last one finished, a call of `queryQueue` starts a query which asks about every
+in-flight job. -/
+theorem query_issued_after_limit (s : SemaphoreQueue.Q) (t : Nat) (j : SemaphoreQueue.Job)
+    (hlim : s.limit = Gen.queueCheckLimitSecs)
+    (hj : j ∈ s.jobs) (hok : j.inFlight) (hact : s.active = none)
+    (hlast : ∀ l, s.last = some l → l + 300 ≤ t) :
+    ∃ ids, (SemaphoreQueue.step s (.issue t)).active = some ids ∧ j.jobid ∈ ids := by
+  apply SemaphoreQueue.issue_effective s t j hj hok hact
+  simp only [SemaphoreQueue.rateLimited]
+  cases hl : s.last with
+  | none => rfl
+  | some l =>
+    have := hlast l hl
+    have h300 : Gen.queueCheckLimitSecs = 300 := by decide
+    simp only [hlim, h300, decide_eq_false_iff_not]
+    omega
+
+/-- **A silently lost job is eventually failed** (so the pipestance does not
+wait for it for ever).  Let job `j` be in flight (Queued/Running in mrp's view
+and on disk, with a job id) and lost during the whole run: it writes nothing
+and no successful answer names it.  If at some point `queryQueue` is called at
+`t1` with no query in flight and the rate limit passed, its answer arrives
+(command succeeded) at `t2`, and `refreshState` runs at any `t3 > t2 + grace`,
+then after that refresh `j` is failed — whatever happens in between (`pre`,
+`mid1`, `mid2` are arbitrary: other jobs' progress, further query attempts,
+refreshes, answers of earlier queries before `t2`).
+Bound: t3 − (time of loss) ≤ (wait for the rate limit: < limit + heartbeat
+period, `query_issued_after_limit`) + query latency + grace + refresh period.
+Needs a SUCCESSFUL answer: with a query command that always fails the job is
+never failed by this path (`broken_query_never_fails_lost_job`). -/
+theorem lost_job_eventually_failed (s : SemaphoreQueue.Q) (j : SemaphoreQueue.Job)
+    (pre mid1 mid2 : List SemaphoreQueue.Ev) (t1 t2 t3 : Nat) (out : List String)
+    (hj : j ∈ s.jobs) (hok : j.inFlight)
+    (hl : SemaphoreQueue.Lost j.jobid
+      (pre ++ (SemaphoreQueue.Ev.issue t1 :: (mid1 ++ (SemaphoreQueue.Ev.answer t2 (some out) :: mid2)))))
+    (hact : (SemaphoreQueue.run s pre).active = none)
+    (hrate : SemaphoreQueue.rateLimited (SemaphoreQueue.run s pre) t1 = false)
+    (hmid : SemaphoreQueue.noAnswer mid1) (hby : SemaphoreQueue.answersBy t2 pre)
+    (h0 : ∀ s0, j.since = some s0 → s0 ≤ t2) (ht : t2 + s.grace < t3) :
+    (SemaphoreQueue.jobRun s
+      (pre ++ (SemaphoreQueue.Ev.issue t1 :: (mid1 ++ (SemaphoreQueue.Ev.answer t2 (some out) ::
+        (mid2 ++ [SemaphoreQueue.Ev.refresh t3]))))) j).st = .notQueued :=
+  SemaphoreQueue.lost_job_failed s j pre mid1 mid2 t1 t2 t3 out hj hok hl hact hrate hmid hby h0 ht
+
+/-- The success of the query command is necessary: if every answer is a command
+failure (`checkQueue` then returns the queried ids unchanged) a lost job is
+never marked, so never failed by the reconciliation — only the 60-minute
+heartbeat timeout (Running jobs only; not modelled) is left. -/
+theorem broken_query_never_fails_lost_job (s : SemaphoreQueue.Q) (evs : List SemaphoreQueue.Ev)
+    (j : SemaphoreQueue.Job) (hfail : ∀ t out, SemaphoreQueue.Ev.answer t out ∈ evs → out = none)
+    (hs : j.since = none) (hd : j.disk ≠ .notQueued) (h0 : j.st ≠ .notQueued) :
+    (SemaphoreQueue.jobRun s evs j).st ≠ .notQueued := by
+  refine (SemaphoreQueue.jobRun_reported s evs j ?_ hs hd h0).2
+  intro ev hev
+  cases ev with
+  | answer t out =>
+    have := hfail t out hev
+    subst this
+    trivial
+  | issue t => trivial
+  | refresh t => trivial
+  | progress i d => trivial
+
+/-- an empty answer (exit status 0, no output: `strings.Split("", "\n")` is `[""]`)
+is NOT treated as a broken command: every queried job is marked -/
+theorem empty_answer_marks_every_queried_job :
+    let js : List SemaphoreQueue.Job := [⟨"a", true, .queued, .queued, none⟩, ⟨"b", true, .running, .running, none⟩]
+    let s : SemaphoreQueue.Q := ⟨40, 300, none, none, js⟩
+    ((SemaphoreQueue.run s [.issue 5, .answer 6 (some [""])]).jobs.map (·.since))
+      = [some 6, some 6] := by
+  decide
+
+/-- the grace period of a configured job mode: `queue_query_grace_secs`, one hour when 0 -/
+theorem grace_default_ok :
+    Gen.queueGraceDefaultSecs_extracted = true ∧
+    SemaphoreQueue.graceOfConfig 0 Gen.queueGraceDefaultSecs = 3600 ∧
+    SemaphoreQueue.graceOfConfig 40 Gen.queueGraceDefaultSecs = 40 := by decide
+
+/-! ### Regenerated obligations: the code the queue-query model mirrors -/
+
+theorem skel_queryQueue_ok :
+    Gen.c12Skel_queryQueue_extracted = false ∨ Gen.c12Skel_queryQueue =
+    ["defer func",
+     "if self.node == nil || self.node.top == nil || self.node.top.rt == nil || self.node.top.rt.JobManager == nil || !self.node.top.rt.JobManager.hasQueueCheck()",
+     "return",
+     "QUEUE_CHECK_LIMIT := 5 * time.Minute",
+     "self.queueCheckLock.Lock()",
+     "if self.queueCheckActive || time.Since(self.lastQueueCheck) < QUEUE_CHECK_LIMIT",
+     "self.queueCheckLock.Unlock()",
+     "return",
+     "else",
+     "self.queueCheckActive = true",
+     "self.queueCheckLock.Unlock()",
+     "needsQuery := make(map[string]*Metadata)",
+     "metas := make(map[*Metadata]bool)",
+     "nodes := self.node.getFrontierNodes()",
+     "for range nodes",
+     "for range node.collectMetadatas()",
+     "if !metas[m]",
+     "st, ok := m.getState()",
+     "if ok && (st == Queued || st == Running) && m.exists(JobId)",
+     "metas[m] = true",
+     "id := m.readRaw(JobId)",
+     "if id != \"\"",
+     "needsQuery[id] = m",
+     "if len(needsQuery) == 0",
+     "self.queueCheckLock.Lock()",
+     "self.queueCheckActive = false",
+     "self.queueCheckLock.Unlock()",
+     "return",
+     "jobsIn := make([]string, 0, len(needsQuery))",
+     "for range needsQuery",
+     "jobsIn = append(jobsIn, id)",
+     "go",
+     "queued, raw := self.node.top.rt.JobManager.checkQueue(jobsIn, ctx)",
+     "for range queued",
+     "delete(needsQuery, id)",
+     "if len(needsQuery) > 0 && raw != \"\"",
+     "if !self.readOnly()",
+     "for range needsQuery",
+     "if m != nil",
+     "m.failNotRunning(id)",
+     "self.queueCheckLock.Lock()",
+     "self.queueCheckActive = false",
+     "self.lastQueueCheck = time.Now()",
+     "self.queueCheckLock.Unlock()"] := by
+  first | exact Or.inr rfl | exact Or.inl rfl
+
+theorem skel_checkQueue_ok :
+    Gen.c12Skel_checkQueue_extracted = false ∨ Gen.c12Skel_checkQueue =
+    ["if self.config.queueQueryCmd == \"\"",
+     "return ids, \"\"",
+     "jobPath := util.RelPath(path.Join(\"..\", \"jobmanagers\"))",
+     "cmd := exec.CommandContext(ctx, path.Join(jobPath, self.config.queueQueryCmd))",
+     "cmd.Dir = jobPath",
+     "cmd.Stdin = strings.NewReader(strings.Join(ids, \"\\n\"))",
+     "cmd.Stderr = &stderr",
+     "output, err := cmd.Output()",
+     "if err != nil",
+     "return ids, stderr.String()",
+     "return strings.Split(string(output), \"\\n\"), stderr.String()"] := by
+  first | exact Or.inr rfl | exact Or.inl rfl
+
+theorem skel_failNotRunning_ok :
+    Gen.c12Skel_failNotRunning_extracted = false ∨ Gen.c12Skel_failNotRunning =
+    ["if !self.exists(JobId)",
+     "return",
+     "st, _ := self.getState()",
+     "if st != Running && st != Queued",
+     "return",
+     "self.poll()",
+     "st, _ := self.getState()",
+     "if st != Running && st != Queued",
+     "return",
+     "self.mutex.Lock()",
+     "defer self.mutex.Unlock()",
+     "if !self.notRunningSince.IsZero()",
+     "return",
+     "if self.readRaw(JobId) != jobid",
+     "return",
+     "if !self._existsNoLock(JobId)",
+     "return",
+     "self.notRunningSince = time.Now()"] := by
+  first | exact Or.inr rfl | exact Or.inl rfl
+
+theorem skel_endRefresh_ok :
+    Gen.c12Skel_endRefresh_extracted = false ∨ Gen.c12Skel_endRefresh =
+    ["self.mutex.Lock()",
+     "self.lastRefresh = lastRefresh",
+     "if !self.notRunningSince.IsZero() && self.notRunningSince.Before(lastRefresh)",
+     "notRunningSince := self.notRunningSince",
+     "self.notRunningSince = time.Time{}",
+     "state, _ := self._getStateNoLock()",
+     "if state == Running || state == Queued",
+     "jobid := self.readRaw(JobId)",
+     "if jobid != \"\"",
+     "if state == Running",
+     "else",
+     "self.mutex.Unlock()"] := by
+  first | exact Or.inr rfl | exact Or.inl rfl
+
+end QueueQuery
+
 /-! ## Non-vacuity -/
+
+/-- a lost job among healthy ones: query at 0 answered at 2 without it, a further
+(rate-limited) attempt, refresh after the grace period: failed; the hypotheses of
+`lost_job_eventually_failed` hold for it -/
+example :
+    let j : Martian.SemaphoreQueue.Job := ⟨"12", true, .running, .running, none⟩
+    let k : Martian.SemaphoreQueue.Job := ⟨"13", true, .queued, .queued, none⟩
+    let s : Martian.SemaphoreQueue.Q := ⟨40, 300, none, none, [k, j]⟩
+    j ∈ s.jobs ∧ j.inFlight ∧
+    Martian.SemaphoreQueue.Lost j.jobid ([] ++ (.issue 0 :: ([.progress "13" .running] ++ (.answer 2 (some ["13", ""]) :: [.issue 10])))) ∧
+    (Martian.SemaphoreQueue.run s []).active = none ∧
+    Martian.SemaphoreQueue.rateLimited (Martian.SemaphoreQueue.run s []) 0 = false ∧
+    Martian.SemaphoreQueue.noAnswer [.progress "13" .running] ∧
+    ((Martian.SemaphoreQueue.run s [.issue 0, .progress "13" .running, .answer 2 (some ["13", ""]), .issue 10,
+        .refresh 43]).jobs.map (·.st)) = [.running, .notQueued] := by
+  refine ⟨by decide, ⟨rfl, rfl, rfl, by decide⟩, ?_, rfl, rfl, ?_, by decide⟩
+  · intro ev hev
+    simp only [List.nil_append, List.cons_append, List.mem_cons, List.mem_nil_iff, or_false] at hev
+    rcases hev with rfl | rfl | rfl | rfl <;> simp [Martian.SemaphoreQueue.Ev.lostFor]
+  · intro ev hev
+    simp only [List.mem_cons, List.mem_nil_iff, or_false] at hev
+    subst hev; trivial
+
+/-- a reported job: `Reported` holds and the job survives a refresh long after the grace period -/
+example :
+    let j : Martian.SemaphoreQueue.Job := ⟨"5", true, .queued, .queued, none⟩
+    let s : Martian.SemaphoreQueue.Q := ⟨1, 300, none, none, [j]⟩
+    Martian.SemaphoreQueue.Reported "5" [.issue 0, .answer 1 (some ["5"]), .progress "5" .running, .refresh 5000] ∧
+    (Martian.SemaphoreQueue.jobRun s [.issue 0, .answer 1 (some ["5"]), .progress "5" .running, .refresh 5000] j).st = .running := by
+  refine ⟨?_, by decide⟩
+  intro ev hev
+  simp only [List.mem_cons, List.mem_nil_iff, or_false] at hev
+  rcases hev with rfl | rfl | rfl | rfl <;> simp [Martian.SemaphoreQueue.Ev.reports]
+
+/-- the hypotheses of the refresh theorems are satisfiable: two jobs running (3 MB of rss
+below mrp, 1536 MB reserved), plenty of memory free, a waiter that fits what is left -/
+example :
+    let s : Sem := ⟨2048, 1500, 1536, [(3, 512)]⟩
+    let o : Martian.SemaphoreRefresh.Obs := ⟨50000 * Martian.SemaphoreRefresh.MB, 2500000, 5000000, 2, 0, 4096, 300⟩
+    Martian.SemaphoreRefresh.ceilMB o.rss ≤ s.reserved ∧
+    s.max ≤ Martian.SemaphoreRefresh.ceilMB o.actualFree + Martian.SemaphoreRefresh.ceilMB o.rss ∧
+    NoLost s ∧
+    (step s (Martian.SemaphoreRefresh.refreshMemOp o)).2 = [.grant 3 512, .ret 47955] := by decide
+
+/-- the default configuration (no vmem semaphore) with a process rlimit of 4096:
+three semaphores, an over-limit request is clamped into them -/
+example :
+    let c : LocalCfg := ⟨4, 8, 0, 1, 1, 0⟩
+    Sane c ∧ localSizes c (some (4096 - startingThreadCount)) = [400, 8192, 4051] ∧
+    localAmounts c true (acquireAmounts (normalize c 8192 0 ⟨700, 20000, 0⟩)) = [400, 8192, 19] := by decide
+
+/-- limit 1: caller 1 (job 7) gets the slot, callers 2 and 3 (jobs 8, 9) park; job 8 is cancelled
+meanwhile; Release signals caller 2, which returns false and — by the deferred Signal — hands the
+wake-up on to caller 3, which gets the slot: quiescent, nobody parked -/
+example :
+    let s := (MJP.init 1).run [.enter 1 7 .queued false, .enter 2 8 .queued false, .enter 3 9 .queued false,
+      .release 7, .resume 2 .other, .resume 3 .queued]
+    ((MJP.init 1).run [.enter 1 7 .queued false, .enter 2 8 .queued false, .enter 3 9 .queued false]).parked
+      = [(2, 8), (3, 9)] ∧
+    s.running = [9] ∧ s.parked = [] ∧ s.woken = [] := by decide
+
+/-- "an availability recovery reaches a lone waiter": the memory semaphore was lowered to 47 MB
+by a shortage, a job asking for 2048 of 4096 MB waits, nobody is running (nothing reserved, no
+usage below mrp); the next `refreshResources` on a machine with memory to spare grants it —
+the instance of `refresh_never_parks_a_fitting_job` the refresh workers drive on the real code -/
+example :
+    let s : Sem := ⟨4096, 47, 0, [(1, 2048)]⟩
+    let o : Martian.SemaphoreRefresh.Obs := ⟨50000 * Martian.SemaphoreRefresh.MB, 0, 0, 5, 0, 4096, 300⟩
+    NoLost s ∧ Martian.SemaphoreRefresh.ceilMB o.rss ≤ s.reserved ∧
+    (step s (Martian.SemaphoreRefresh.refreshMemOp o)).1.waiters = [] ∧
+    (step s (Martian.SemaphoreRefresh.refreshMemOp o)).1.reserved = 2048 := by decide
+
+/-- an update that grows the size by 1 wakes the waiter that now fits -/
+example : observedSize ⟨8192, 8091, 0, [(1, 8092)]⟩ (.updActual 8092) = some 8092 ∧
+    NoLost ⟨8192, 8091, 0, [(1, 8092)]⟩ ∧
+    (step ⟨8192, 8091, 0, [(1, 8092)]⟩ (.updActual 8092)).1.waiters = [] := by decide
 
 /-- a run with blocking, FIFO hand-over, an availability drop and a restore:
 no panic, three requests accepted, all granted in order -/
@@ -847,13 +1492,40 @@ example : Sane ⟨4, 8, 16384, 1, 1, 3⟩ ∧
     normalize ⟨4, 8, 16384, 1, 1, 3⟩ 8192 16384 ⟨900, 99999, 99999⟩ = ⟨400, 8192, 16384⟩ := by decide
 
 /-- `reattach_restores_count`: two in-flight jobs, --maxjobs 2; a third job then has to wait -/
-example : ((MJ.init 2).run (reattachOps [3, 1])).running = [3, 1] ∧
-    (((MJ.init 2).run (reattachOps [3, 1])).attempt 0 .waiting false).2 = none := by decide
+example : ((MJ.init 2).run (reattachOps [(3, .running), (1, .queued)])).running = [3, 1] ∧
+    (((MJ.init 2).run (reattachOps [(3, .running), (1, .queued)])).attempt 0 .waiting false).2 = none := by decide
 
 /-- MaxJobs: the limit is reached and a further blocking attempt waits -/
 example :
     ((MJ.init 2).run [.attempt 1 .waiting false, .attempt 2 .queued false]).running = [1, 2] ∧
     (((MJ.init 2).run [.attempt 1 .waiting false, .attempt 2 .queued false]).attempt 3 .waiting false).2 = none := by
   decide
+
+/-! ### definitional unfoldings (documentation of the model, not guarantees) -/
+
+section Unfoldings
+open Martian
+
+/-- the jobs of the state after a run are the jobs of the state before, each followed through the run -/
+theorem run_follows_jobs (s : SemaphoreQueue.Q) (evs : List SemaphoreQueue.Ev) :
+    (SemaphoreQueue.run s evs).jobs = s.jobs.map (SemaphoreQueue.jobRun s evs) :=
+  SemaphoreQueue.run_jobs s evs
+
+/-- the process semaphore after `setupSemaphores` (with `UpdateSize(rlimCur)`) is
+the semaphore of size `rlimMax - 45` "shifted" by a standing reservation of 45 -/
+theorem procs_semaphore_after_setup (rmax rcur : Int) (h : startingThreadCount ≤ rmax) :
+    (run (Sem.init rmax) [.acquire 0 startingThreadCount, .updSize rcur]).1
+      = (⟨rmax - startingThreadCount, rcur - startingThreadCount, 0, []⟩ : Sem).shift startingThreadCount := by
+  have hfit : startingThreadCount ≤ rmax - 0 := by omega
+  simp only [run, step, Sem.init, hfit, List.isEmpty_nil, and_self, if_true, Sem.setCur, Sem.wake, runJobs,
+    Sem.shift]
+  split <;> simp <;> omega
+
+/-- the Boolean the driver evaluates on every real configuration (`C12.cfgsizes`)
+is the hypothesis `Sane` of the clamping theorems -/
+theorem saneB_iff_Sane (c : LocalCfg) : saneB c = true ↔ Sane c := by
+  simp [saneB, Sane, and_assoc]
+
+end Unfoldings
 
 end Props.C12
